@@ -96,8 +96,15 @@ theorem wrong_length_never_matches (H : Bytes → Bytes) (h20 : ∀ b, (H b).len
     (hl : digest.length ≠ 20) : H (nonce ++ secret) ≠ digest := by
   intro h; apply hl; rw [← h]; exact h20 _
 
-/-- a digest computed for another connection's nonce, or with another identity's secret, matches only if
-    the hash collides on those two inputs -/
+/-- a digest computed for another connection's nonce (or with another identity's secret) is rejected
+    unless the hash collides on the two inputs: if it was accepted on this connection, the two hash values
+    are equal -/
+theorem foreign_digest_needs_collision (H : Bytes → Bytes) (nonce nonce' secret : Bytes)
+    (hacc : H (nonce ++ secret) = H (nonce' ++ secret)) (hne : nonce ≠ nonce') :
+    ∃ a b, a ≠ b ∧ H a = H b := by
+  refine ⟨nonce ++ secret, nonce' ++ secret, ?_, hacc⟩
+  intro h; exact hne (List.append_cancel_right h)
+
 /-- Any well-formed non-AUTH first frame: OP_ERROR + close, nothing else (C02 uses `Rejected` from
     Lemmas/BrokerStep: accepted log, registry, gauges, all other connections unchanged). -/
 theorem non_auth_first_frame (cfg : Cfg) (s : State) (c : Nat) (x : Conn) (f : Frame)
